@@ -23,5 +23,5 @@ rundemo without
 (cd "$d/w" && go build ./... 2>&1 | head -3; go test -vet=off -count=1 ./... 2>&1 | grep -v "no test files" | sed 's/^/suite: /')
 rundemo with
 if [ "$props" = all ]; then props="C01 C02 C03 C04 C05 C06 C07 C08 C09 C10 C11 C12 C13 C14 C15 C16 C17 C18 C19 C20"; fi
-for p in ${props//,/ }; do VERIF_REPO="$d/w" VERIF_OUT="$d/.evid" /verif/bin/safecheck -p $p | grep -v '^KNOWN' | sed "s|$d/w/||g" | cut -c1-300 | grep -v "failing=0" | head -${SEED_LINES:-4}; done
+for p in ${props//,/ }; do VERIF_REPO="$d/w" VERIF_OUT="$d/.evid" ${SC:-/verif/bin/safecheck} -p $p | grep -v '^KNOWN' | sed "s|$d/w/||g" | cut -c1-300 | grep -v "failing=0" | head -${SEED_LINES:-4}; done
 echo "== done"
